@@ -109,36 +109,67 @@ class RqArg(Arg):
         return self.cls(**vals), asm
 
 
+BUILDER_OF = {StmtRq: "stmttrnrq", StmtEndRq: "stmtendtrnrq", CcStmtRq: "ccstmttrnrq", CcStmtEndRq: "ccstmtendtrnrq", InvStmtRq: "invstmttrnrq"}
+ID_OF = {StmtRq: "bankid", StmtEndRq: "bankid", InvStmtRq: "brokerid"}
+
+
 def call_wrap(cls):
+    """modular: the five builders are abstract callees here (their own contracts, 1-5 above, say where every argument
+    goes); what is proved of the dispatch arm is WHICH builder it calls, HOW OFTEN and WITH WHAT"""
     def call(it, fn, a):
         setup(it)
+        for k, nm in BUILDER_OF.items():
+            it.models[getattr(OFXClient, nm)] = (lambda nm_: lambda it_, args, kw: (log(it_, "builder", nm_, args[0], dict(kw), list(args[1:])),
+                                                                                     Marker("wrapper", builder=nm_, kw=dict(kw)))[1])(nm)
         return it.call(CL.wrap_stmtrq, [cls(), [a[1], a[2]], a[0]], {})
     return call
 
 
-WRAP = {
-    StmtRq: ("BANKMSGSRQV1", "stmtrq", ["bankacctfrom.acctid=acctid", "bankacctfrom.accttype=accttype", "inctran.dtstart=dtstart", "inctran.dtend=dtend", "inctran.include=inctran"], "bankacctfrom.bankid"),
-    StmtEndRq: ("BANKMSGSRQV1", "stmtendrq", ["bankacctfrom.acctid=acctid", "bankacctfrom.accttype=accttype", "dtstart=dtstart", "dtend=dtend"], "bankacctfrom.bankid"),
-    CcStmtRq: ("CREDITCARDMSGSRQV1", "ccstmtrq", ["ccacctfrom.acctid=acctid", "inctran.dtstart=dtstart", "inctran.dtend=dtend", "inctran.include=inctran"], None),
-    CcStmtEndRq: ("CREDITCARDMSGSRQV1", "ccstmtendrq", ["ccacctfrom.acctid=acctid", "dtstart=dtstart", "dtend=dtend"], None),
-    InvStmtRq: ("INVSTMTMSGSRQV1", "invstmtrq", ["invacctfrom.acctid=acctid", "incoo=incoo", "incbal=incbal", "incpos.include=incpos", "incpos.dtasof=dtasof"], "invacctfrom.brokerid"),
-}
+def wrapped_from(ghost, result, client, rqs, kind):
+    raise RuntimeError("symbolic only")
+
+
+def _wrapped_from(it, a, kw):
+    ghost, result, client, rqs, kind = a
+    cls = {k.__name__: k for k in BUILDER_OF}[kind]
+    calls_ = [c for c in ghost["calls"] if c[0] == "builder"]
+    if len(calls_) != len(rqs) or not isinstance(result, tuple) or len(result) != 2 or len(result[1]) != len(rqs):
+        return False
+    for i, (c, rq) in enumerate(zip(calls_, rqs)):
+        if c[1] != BUILDER_OF[cls] or c[2] is not client or c[4]:
+            return False
+        want = dict(rq._asdict())
+        if cls in ID_OF:
+            want[ID_OF[cls]] = it.getattr(client, ID_OF[cls])
+        got = c[3]
+        if set(got) != set(want):
+            return False
+        for k, v in want.items():
+            g = got[k]
+            same = g is v or (isinstance(g, SVal) and isinstance(v, SVal) and g.e.eq(v.e)) or (isinstance(g, SBool) and isinstance(v, SBool) and g.e.eq(v.e)) \
+                or (not isinstance(g, (Sym, Abstract)) and not isinstance(v, (Sym, Abstract)) and type(g) is type(v) and g == v)
+            if not same:
+                return False
+        w = result[1][i]
+        if not (isinstance(w, Marker) and w.label == "wrapper" and w.attrs["kw"] is not None and w.attrs["builder"] == BUILDER_OF[cls]):
+            return False
+    return True
+
+
+wrapped_from._pyvc_model = _wrapped_from
+wrapped_from._pyvc_always = True
+import contracts.spec.client as _spc0
+_spc0.wrapped_from = wrapped_from
+
+WRAP = {StmtRq: "BANKMSGSRQV1", StmtEndRq: "BANKMSGSRQV1", CcStmtRq: "CREDITCARDMSGSRQV1", CcStmtEndRq: "CREDITCARDMSGSRQV1", InvStmtRq: "INVSTMTMSGSRQV1"}
 W0 = len(CONTRACTS)
-for cls, (msgset, body, maps, idpath) in WRAP.items():
-    ens = [("message-set", f"result[0].__name__ == {msgset!r} and len(result[1]) == 2")]
-    for i, r in enumerate(("rq0", "rq1")):
-        parts = []
-        for mp in maps:
-            path, fld = mp.split("=")
-            holder, attr = (f"result[1][{i}].{body}." + path).rsplit(".", 1)
-            parts.append(H(holder, attr, f"{r}.{fld}"))
-        if idpath:
-            holder, attr = (f"result[1][{i}].{body}." + idpath).rsplit(".", 1)
-            parts.append(H(holder, attr, "self.bankid" if attr == "bankid" else "self.brokerid"))
-        ens.append((f"wrapper-{i}-carries-request-{i}", " and ".join(parts)))
+for cls, msgset in WRAP.items():
     CONTRACTS.append(Contract("ofxtools.Client:wrap_stmtrq", args=[ClientArg(), RqArg("rq0", cls), RqArg("rq1", cls)], call=call_wrap(cls),
-                              ensures=ens, raises=[(ValueError, "True", "may"), (TypeError, "True", "may")],
-                              notes=f"dispatch arm for {cls.__name__}: two symbolic requests stand for the request sequence (per-request step)", props=["C06"], symbolic_only=True))
+                              ensures=[("message-set", f"result[0].__name__ == {msgset!r} and len(result[1]) == 2"),
+                                       ("one-builder-call-per-request-with-the-request's-own-fields-and-the-client's-id",
+                                        f"spec.client.wrapped_from(ghost, result, self, [rq0, rq1], {cls.__name__!r})")],
+                              notes=f"dispatch arm for {cls.__name__}: two symbolic requests stand for the request sequence (per-request step); the builder is an abstract callee (contracts 1-5)",
+                              props=["C06"], symbolic_only=True))
 
 
 # ------------------------------------------------------------------ version / end-tag guards
